@@ -6,6 +6,7 @@ CONSTANTS
   BaseSeq <- BasesAll
   WrapSeq <- WrapsAll
   RenSeq <- RensMC
+  DocSet <- DocBoth
   Family = "all"
   MaxFields = 1
   MaxDepth = 3
